@@ -27,13 +27,13 @@ static int cmd_geometry_hist(const Args& a) {
         for (face& f : cell_tester::faces(*C)) if (f.is_used()) f.set_face_type_id((unsigned short)g.range(0, 2));
         std::vector<double> el; { std::vector<V3> P; std::vector<orc::Tri> T; gen::extract(*C, P, T); for (auto& t : T) { unsigned v[3] = {t.a, t.b, t.c}; for (int k = 0; k < 3; k++) el.push_back((double)(P[v[k]] - P[v[(k + 1) % 3]]).norm()); } }
         std::sort(el.begin(), el.end());
-        const int nst = g.range(4, 12); bool fresh = true; long judged = 0, ops_total = 0; std::string hist;
+        const int nst = g.range(4, 12); bool fresh = true, faces_unchanged_since_force = false; long judged = 0, ops_total = 0, probes = 0; std::string hist;
         auto judge = [&](const char* at) {
             std::vector<V3> P; std::vector<orc::Tri> T; std::vector<char> used; std::vector<unsigned> live; gen::extract(*C, P, T, &used, &live);
             orc::Geo geo = orc::geometry(P, T); if (!(geo.volume > 0) || !(geo.area > 0)) return;   // folded by the random moves: nothing to compare with
             R D = 0, rr = 0; for (unsigned k : live) { D = std::max(D, P[k].norm()); rr = std::max(rr, (P[k] - geo.centroid).norm()); }
             const R F = (R)T.size(), EPS = 2.220446e-16L;
-            const R tolV = 1e-10L * geo.volume + 256 * EPS * std::sqrt(F) * D * D * D, tolA = 1e-10L * geo.area, tolC = 1e-10L * (D + rr);
+            const R tolV = 1e-10L * geo.volume + 256 * EPS * std::sqrt(F) * 8 * rr * rr * rr + 64 * EPS * geo.area * (D + rr), tolA = 1e-10L * geo.area, tolC = 1e-10L * (D + rr);
             judged++;
             const R V = C->get_volume(), A = C->get_area(); vec3 cc = C->compute_centroid(); V3 Cc(cc.dx(), cc.dy(), cc.dz());
             agg.maxi("hist_volume_err_over_tol", (double)(std::fabs(V - geo.volume) / tolV)); agg.maxi("hist_area_err_over_tol", (double)(std::fabs(A - geo.area) / tolA)); agg.maxi("hist_centroid_err_over_tol", (double)((Cc - geo.centroid).norm() / tolC));
@@ -44,12 +44,12 @@ static int cmd_geometry_hist(const Args& a) {
                 if (!ok) c.viol(std::string("history:aabb_exact@") + at, "get_aabb() is not the tight box of the live nodes after the history " + hist); }
         };
         for (int s = 0; s < nst && c.v != "viol"; s++) {
-            const int what = s == 0 ? 0 : g.range(0, 3);
+            const int what = s == 0 ? 0 : (a.geti("translate_probe", 0) != 0 && g.coin(0.4)) ? (fresh ? 1 : 2) : g.range(0, 3);
             if (what == 0) {   // refinement pass with a band that collapses the shortest and splits the longest edges of the ORIGINAL mesh (later passes act on what moves produced)
                 const double lmin = el[(size_t)(el.size() * g.uni(0.02, 0.2))] * 1.0001, lmax = std::max(el[(size_t)(el.size() * g.uni(0.7, 0.999))], 2.2 * lmin);
                 long before = (long)C->get_nb_of_faces();
                 try { local_mesh_refiner lmr(lmin, lmax, g.coin(0.6)); lmr.refine_mesh(C); } catch (const std::exception&) { hist += "R!"; break; }
-                ops_total += std::labs((long)C->get_nb_of_faces() - before); hist += "R";
+                ops_total += std::labs((long)C->get_nb_of_faces() - before); hist += "R"; faces_unchanged_since_force = false;
             } else if (what == 1) {   // the nodes move
                 std::vector<V3> P; std::vector<orc::Tri> T; std::vector<char> used; std::vector<unsigned> live; gen::extract(*C, P, T, &used, &live);
                 std::vector<double> minl(P.size(), 1e300); for (auto& t : T) { unsigned v[3] = {t.a, t.b, t.c}; for (int k = 0; k < 3; k++) { double l = (double)(P[v[k]] - P[v[(k + 1) % 3]]).norm(); minl[v[k]] = std::min(minl[v[k]], l); minl[v[(k + 1) % 3]] = std::min(minl[v[(k + 1) % 3]], l); } }
@@ -58,17 +58,31 @@ static int cmd_geometry_hist(const Args& a) {
                 auto& nl = cell_tester::nodes(*C); for (unsigned k : live) { V3 x = P[k] - ctr; auto w = gen::rapply(rot, {(double)x.x * st[0], (double)x.y * st[1], (double)x.z * st[2]});
                     cell_tester::pos(nl[k]).reset((double)ctr.x + w[0] + sh[0] + nz * minl[k] * g.uni(-1, 1), (double)ctr.y + w[1] + sh[1] + nz * minl[k] * g.uni(-1, 1), (double)ctr.z + w[2] + sh[2] + nz * minl[k] * g.uni(-1, 1)); }
                 fresh = false; hist += "M";
+                // C14: the centroid the division code asks for at this point (nodes moved by the integrator since the force phase, faces unchanged
+                // since then) must follow a translation of the cell: shift every node by t and ask again
+                if (a.geti("translate_probe", 0) != 0 && faces_unchanged_since_force && c.v != "viol") {
+                    vec3 c1 = C->compute_centroid(); R rad = 0; for (unsigned k : live) rad = std::max(rad, (P[k] - ctr).norm());
+                    const double tm = (double)rad * g.logu(1, 300); double d[3] = {g.normal(), g.normal(), g.normal()}; const double dn = std::sqrt(d[0] * d[0] + d[1] * d[1] + d[2] * d[2]); for (double& x : d) x *= tm / dn;
+                    R Dmax = 0; for (unsigned k : live) { const vec3& x = nl[k].pos(); cell_tester::pos(nl[k]).reset(x.dx() + d[0], x.dy() + d[1], x.dz() + d[2]); Dmax = std::max(Dmax, V3(x.dx() + d[0], x.dy() + d[1], x.dz() + d[2]).norm()); }
+                    vec3 c2 = C->compute_centroid(); V3 dev(c2.dx() - c1.dx() - d[0], c2.dy() - c1.dy() - d[1], c2.dz() - c1.dz() - d[2]);
+                    const R tolT = 1e-9L * (Dmax + V3(c1.dx(), c1.dy(), c1.dz()).norm() + rad); probes++;
+                    agg.maxi("translate_probe_dev_over_tol", (double)(dev.norm() / tolT));
+                    if (!(dev.norm() <= tolT)) c.viol("history:centroid_does_not_follow_translation", "the centroid of a cell whose nodes moved since the last force phase changes by " + std::to_string((double)(dev.norm() / rad)) + " cell radii more than the translation applied to the cell (" + std::to_string(tm / (double)rad) + " radii) after the history " + hist);
+                    hist += "t"; }
             } else if (what == 2) {   // force phase: refresh point of the product
-                C->apply_internal_forces(0.0); for (node& n : cell_tester::nodes(*C)) if (n.is_used()) n.set_force(vec3(0, 0, 0)); fresh = true; hist += "F"; judge("force_phase");
+                C->apply_internal_forces(0.0); for (node& n : cell_tester::nodes(*C)) if (n.is_used()) n.set_force(vec3(0, 0, 0)); fresh = true; faces_unchanged_since_force = true; hist += "F"; judge("force_phase");
             } else {   // compaction
-                try { C->rebase(); } catch (const std::exception&) { hist += "C!"; break; } hist += "C";
-                if (fresh) { C->apply_internal_forces(0.0); for (node& n : cell_tester::nodes(*C)) if (n.is_used()) n.set_force(vec3(0, 0, 0)); hist += "F"; judge("compaction_then_force_phase"); }
+                try { C->rebase(); } catch (const std::exception&) { hist += "C!"; break; } hist += "C"; faces_unchanged_since_force = false;
+                if (fresh) { faces_unchanged_since_force = true; C->apply_internal_forces(0.0); for (node& n : cell_tester::nodes(*C)) if (n.is_used()) n.set_force(vec3(0, 0, 0)); hist += "F"; judge("compaction_then_force_phase"); }
             }
         }
-        if (c.v != "viol") { C->apply_internal_forces(0.0); hist += "F"; judge("final_force_phase"); }
+        // (a pass or a compaction that gave up with an exception leaves the cell in an unspecified state: the history ends there)
+        const bool gave_up = !hist.empty() && hist.back() == '!';
+        if (c.v != "viol" && !gave_up) { C->apply_internal_forces(0.0); hist += "F"; judge("final_force_phase"); }
+        if (gave_up) agg.bin("hist_ended_by_refiner_exception");
         c.nontrivial = judged > 0 && ops_total > 0; c.sig = hash_combine(hash_str(hist), (uint64_t)C->get_nb_of_faces());
         c.obs.s("shape", m.name).s("history", hist).i("class", cls).i("judged", judged).i("faces_end", (long)C->get_nb_of_faces()).d("scale", scale);
-        agg.bin("hist_judged_states", judged); agg.bin("hist_cells"); if (ops_total > 0) agg.bin("hist_cells_with_remeshing");
+        agg.bin("hist_judged_states", judged); agg.bin("hist_translation_probes", probes); agg.bin("hist_cells"); if (ops_total > 0) agg.bin("hist_cells_with_remeshing");
         agg.add(c);
     }
     agg.flush(a.shard_i);
